@@ -98,6 +98,7 @@ def run(ctx):
     ok = kernel_setup(ctx)
     if ok:
         ctx.build_props()
+        ctx.build_props("Props/C01r.vo")  # C01 over the reals: value = ln N(y | M mu, B) (Base/Rstruct.v: MathComp field structure on R)
     else:
         ctx.obligations += 1
     specs = load_corpus("C01") + gen_cases(ctx)
